@@ -20,7 +20,7 @@ import (
 )
 
 type c16Item struct {
-	Kind string `json:"kind"` // gen | flip | trunc | junk | old | short (a forged record of the current epoch whose body has Len (0..15) bytes)
+	Kind string `json:"kind"` // gen | packed (a forged record and the genuine one in one datagram) | flip | trunc | junk | old | short (a forged record of the current epoch whose body has Len (0..15) bytes)
 	I    int    `json:"i"`    // which written record (gen, flip, trunc)
 	Pos  int    `json:"pos,omitempty"`
 	Mask byte   `json:"mask,omitempty"`
@@ -41,6 +41,17 @@ type c16ConnInput struct {
 	// Tail: the application takes the first two bytes of a record with a short Read, then calls ReadFrom and Read in
 	// turn: the rest of that record must come out unchanged whatever arrives (and is fetched) in between
 	Tail bool `json:"tail,omitempty"`
+	// Big: the peer is configured with a path MTU of 4000 and writes payloads of 3000 bytes; the receiving end's own
+	// configuration leaves the path MTU at its default (a path MTU limits what an endpoint sends, not what it receives)
+	Big bool `json:"big,omitempty"`
+}
+
+func c16Pay(in c16ConnInput, i int) string {
+	s := fmt.Sprintf("m%04d", i)
+	if in.Big {
+		s += strings.Repeat("x", 2995)
+	}
+	return s
 }
 
 type c16ConnObs struct {
@@ -56,6 +67,9 @@ func c16ConnRun(in c16ConnInput) (obs c16ConnObs, coqItems, coqOuts []string) {
 	reg := tk.NewRegistry()
 	cc := tk.EPConfig{Suites: []uint16{in.Suite}, Ident: "cli", ServerName: "server.test", PMTU: 4000}
 	sc := tk.EPConfig{Ident: "srv", PMTU: 4000, ReplayWindow: in.Window}
+	if in.Big {
+		sc.PMTU = 0
+	}
 	scfg := tk.BuildDTLCP(sc, reg)
 	if in.PerClient {
 		per := scfg.Clone()
@@ -100,7 +114,7 @@ func c16ConnRun(in c16ConnInput) (obs c16ConnObs, coqItems, coqOuts []string) {
 			c.VerifSetWriteSeq(in.SeqBase)
 		}
 		for i := 0; i < in.N; i++ {
-			c.Write([]byte(fmt.Sprintf("m%04d", i)))
+			c.Write([]byte(c16Pay(in, i)))
 		}
 		sleep() // all records are with the network now
 		jr := rand.New(rand.NewPCG(in.JunkSeed, 0xC16C))
@@ -123,6 +137,18 @@ func c16ConnRun(in c16ConnInput) (obs c16ConnObs, coqItems, coqOuts []string) {
 				if it.Kind == "trunc" {
 					data = data[:it.Len%len(data)]
 				}
+			case "packed":
+				// one datagram: a record that does not authenticate (a copy of the written record under a sequence number
+				// nobody used, last byte changed) in front of the genuine record
+				if it.I >= len(captured) {
+					obs.Err = "item refers to a record that was not captured"
+					return
+				}
+				forged := append([]byte(nil), captured[it.I]...)
+				fs := uint64(5000 + it.I + it.Pos)
+				forged[5], forged[6], forged[7], forged[8], forged[9], forged[10] = byte(fs>>40), byte(fs>>32), byte(fs>>24), byte(fs>>16), byte(fs>>8), byte(fs)
+				forged[len(forged)-1] ^= 0x20
+				data = append(forged, captured[it.I]...)
 			case "old":
 				data = append([]byte(nil), early[it.I%len(early)]...)
 			case "short":
@@ -195,12 +221,12 @@ func c16ConnRun(in c16ConnInput) (obs c16ConnObs, coqItems, coqOuts []string) {
 		gens := 0
 		for _, it := range in.Items {
 			if it.Kind == "gen" {
-				p := fmt.Sprintf("m%04d", it.I)
+				p := c16Pay(in, it.I)
 				switch gens {
 				case 0:
 					want = append(want, p[:2])
 				case 1:
-					want = append(want, p, fmt.Sprintf("m%04d", in.Items[0].I)[2:])
+					want = append(want, p, c16Pay(in, in.Items[0].I)[2:])
 				default:
 					want = append(want, p)
 				}
@@ -229,14 +255,14 @@ func c16ConnRun(in c16ConnInput) (obs c16ConnObs, coqItems, coqOuts []string) {
 			}
 		}
 		obs.Seqs = append(obs.Seqs, s)
-		seqOf[fmt.Sprintf("m%04d", i)] = s
+		seqOf[c16Pay(in, i)] = s
 	}
 	failed := false
 	for k, it := range in.Items {
 		if k >= len(at) {
 			break
 		}
-		if it.Kind == "gen" {
+		if it.Kind == "gen" || it.Kind == "packed" { // a record that is not genuine is inert wherever it travels
 			coqItems = append(coqItems, fmt.Sprintf("Gen %d", obs.Seqs[it.I]))
 		} else {
 			coqItems = append(coqItems, "Bogus")
@@ -382,6 +408,23 @@ func c16ConnGen(out *emit.Out, p params, r *rand.Rand) error {
 		c16ConnAdd(out, "short-forged-records", in)
 		in.ReadFrom = !in.ReadFrom
 		c16ConnAdd(out, "short-forged-records", in)
+	}
+	// a record that does not authenticate in front of the genuine one in the same datagram; records larger than the
+	// receiving end's own (default) path MTU
+	for _, su := range []uint16{0xe053, 0xe013} {
+		for _, rf := range []bool{false, true} {
+			in := c16ConnInput{Suite: su, Window: 64, ReadFrom: rf, N: 30, JunkSeed: r.Uint64()}
+			for _, i := range []int{0, 1, 5, 3, 10, 2} {
+				in.Items = append(in.Items, c16Item{Kind: "packed", I: i, Pos: len(in.Items)}, c16Item{Kind: "gen", I: i})
+			}
+			in.Items = append(in.Items, c16Item{Kind: "gen", I: 12}, c16Item{Kind: "packed", I: 12}, c16Item{Kind: "packed", I: 20})
+			c16ConnAdd(out, "forged-and-genuine-in-one-datagram", in)
+			big := c16ConnInput{Suite: su, Window: 64, ReadFrom: rf, N: 12, JunkSeed: r.Uint64(), Big: true}
+			for _, i := range []int{0, 2, 1, 2, 7, 11} {
+				big.Items = append(big.Items, c16Item{Kind: "gen", I: i})
+			}
+			c16ConnAdd(out, "records-above-the-receivers-own-path-mtu", big)
+		}
 	}
 	// every byte of the record header altered (type, version, epoch, sequence number, length), each followed by the untouched original
 	for k, su := range []uint16{0xe053, 0xe013} {
